@@ -578,25 +578,31 @@ class SamplingMethod(DirectMethod):
             self.add_constraints_after(stage, opti)
             self.add_objective(stage, opti)
         if phase==2:
-
-            self.set_initial(stage, opti, stage._initial)
-            T_init = opti.debug.value(self.T, opti.initial())
-            t0_init = opti.debug.value(self.t0, opti.initial())
-
-            initial = HashOrderedDict()
-            # How to get initial value -> ask opti?
-            control_grid_init = self.time_grid(t0_init, T_init, self.N)
-            if self.time_grid.localize_t0:
-                for k in range(1, self.N):
-                    initial[self.t0_local[k]] = control_grid_init[k]
-                initial[self.t0_local[self.N]] = control_grid_init[self.N]
-            if self.time_grid.localize_T:
-                for k in range(not isinstance(self.time_grid, FreeGrid), self.N):
-                    initial[self.T_local[k]] = control_grid_init[k+1]-control_grid_init[k]
-
-            self.set_initial(stage, opti, initial)
-            self.set_initial(stage, opti, stage._initial) # Redo this: ocp.t is correct only now
+            self.seed_initial(stage, opti, stage._initial)
             self.set_parameter(stage, opti)
+
+    def seed_initial(self, stage, opti, initial_user):
+        """Apply the user's guesses, including what follows from them: the start values of the
+        time variables of localized/free grids, and guesses given as expressions of time.
+        Also used when a guess is given after transcription."""
+        opti = opti.opti if hasattr(opti, 'opti') else opti
+        self.set_initial(stage, opti, initial_user)
+        T_init = opti.debug.value(self.T, opti.initial())
+        t0_init = opti.debug.value(self.t0, opti.initial())
+
+        initial = HashOrderedDict()
+        # How to get initial value -> ask opti?
+        control_grid_init = self.time_grid(t0_init, T_init, self.N)
+        if self.time_grid.localize_t0:
+            for k in range(1, self.N):
+                initial[self.t0_local[k]] = control_grid_init[k]
+            initial[self.t0_local[self.N]] = control_grid_init[self.N]
+        if self.time_grid.localize_T:
+            for k in range(not isinstance(self.time_grid, FreeGrid), self.N):
+                initial[self.T_local[k]] = control_grid_init[k+1]-control_grid_init[k]
+
+        self.set_initial(stage, opti, initial)
+        self.set_initial(stage, opti, initial_user) # Redo this: ocp.t is correct only now
 
 
     def add_constraints_before(self, stage, opti):
